@@ -23,6 +23,32 @@ func (c08) Gen(tier string, seed int64, emit func([]Ev)) {
 	for i := 0; i < n; i++ {
 		s := rndSig(r)
 		switch i % 25 {
+		case 19:
+			// sections longer than 1023 bytes (section_length is a 12-bit field, up to 4093):
+			// several descriptors with long UPIDs, or a component splice with many components
+			target := []int{1024, 1030, 1100, 1500, 2048, 2100, 3000, 4000}[r.Intn(8)]
+			if tier != "thorough" && r.Intn(3) != 0 {
+				target = 1024 + r.Intn(300)
+			}
+			if s.Cmd.Kind == "insert" && !s.Cmd.Cancel && !s.Cmd.Program && r.Intn(2) == 0 {
+				for len(s.Cmd.Comps) < 120 {
+					s.Cmd.Comps = append(s.Cmd.Comps, absComp{Tag: r.Intn(256), Spec: !s.Cmd.Immediate && r.Intn(4) != 0, Pts: rnd33(r)})
+				}
+			}
+			for len(s.section()) < target-270 {
+				d := rndSeg(r)
+				d.Cancel = false
+				d.UpidType, d.Mid = []int{1, 2, 3, 8, 9, 12, 14, 15}[r.Intn(8)], nil
+				d.Upid = rndBytes(r, 150+r.Intn(50)) // descriptor_length is one byte: keep the body below 256
+				s.Descs = append(s.Descs, d)
+			}
+			for k := 0; len(s.section()) < target && k < 300; k++ {
+				d := &s.Descs[len(s.Descs)-1]
+				if len(d.bytes()) >= 257 {
+					break
+				}
+				d.Upid = append(d.Upid, byte(r.Intn(256)))
+			}
 		case 20:
 			s.Cmd = absCmd{Kind: "other", Type: []int{4, 7, 255, 1, 8}[r.Intn(5)], Body: rndBytes(r, r.Intn(12))}
 		case 21:
